@@ -316,15 +316,15 @@ def knn(ctx, root_id):
     def held(p, upto):
         """polynomial of the number of candidates held when condition number `upto` was evaluated (counter in lock-step assumed)"""
         if size_atom is not None:
-            js = [j for j, c in enumerate(p.st.conds[:(upto + 1 if upto is not None else None)]) if size_atom in au.src(c[0])]
-            if not js:
+            occ = [(j, n_) for j, c in enumerate(p.st.conds[:(upto + 1 if upto is not None else None)]) for n_ in ast.walk(c[0]) if size_atom(n_)]
+            if not occ:
                 return None, None
-            j = js[-1]
+            j, node_ = occ[-1]
             for ev in p.st.events:
                 if ev.kind == "call" and ev.recv is not None and au.src(ev.recv) == H and ev.tail in ("push",) + HEAP_POP \
                         and ev.nconds > j and (upto is None or ev.nconds <= upto):
                     return None, None
-            return sym.Poly.atom(size_atom), size_atom
+            return sym.Poly.atom(L.atom_name(node_)), L.atom_name(node_)
         v = cur(p)
         t_ = counter_of(v) if v is not None else None
         if t_ is None:
@@ -460,12 +460,13 @@ def knn(ctx, root_id):
     knn_inner(V, ex, its, H, k, pt, held, cname or size_atom)
     check_children(V, its, "query")
     # ---------------- result
-    knn_result(V, ex, paths, H, k, cur, cname)
+    knn_result(V, ex, paths, H, k, cur, cname, size_atom)
     V.flush()
 
 
 def heap_size_atom(ex, its, H, k):
-    """source text of an expression compared with k that denotes the current number of items of the heap H"""
+    """predicate recognising the expressions that denote the current number of items of the heap H (`H.size` for a property returning
+    len(self.data), `len(H.data)`, `len(H)`), when such an expression is compared with k; None otherwise"""
     from .hg_pq import PQM as _PQM, PQC as _PQC
     cands = set()
     for p in its:
@@ -477,7 +478,10 @@ def heap_size_atom(ex, its, H, k):
                     o = ex.origin(side) if ex.kind(side) == "call" else None
                     if isinstance(o, ast.Call) and au.call_tail(o) == "len" and len(o.args) == 1 and au.src(o.args[0]) in (H, f"{H}.data"):
                         cands.add(("len", au.src(o.args[0]), au.src(side)))
+    ok_attrs, ok_len = set(), False
     for kind, name, text in sorted(cands):
+        if kind == "len":
+            ok_len = True
         if kind == "attr":
             try:
                 cls = ex.repo.cls(_PQM, _PQC)
@@ -487,10 +491,18 @@ def heap_size_atom(ex, its, H, k):
                 ex2 = S.Exec(ex.repo, _PQM, _PQC, fields_by_name=True)
                 sts = [s_ for s_ in ex2.run(m) if s_.end != "raise"]
                 if len(sts) == 1 and sts[0].ret is not None and ex2.text(sts[0].ret) == "len(self.data)":
-                    return text
+                    ok_attrs.add(name)
             except Exception:
                 continue
-    return None
+    if not ok_attrs and not ok_len:
+        return None
+
+    def is_size(n_):
+        if isinstance(n_, ast.Attribute) and au.src(n_.value) == H and n_.attr in ok_attrs:
+            return True
+        o = ex.origin(n_) if ex.kind(n_) == "call" else (n_ if isinstance(n_, ast.Call) else None)
+        return ok_len and isinstance(o, ast.Call) and au.call_tail(o) == "len" and len(o.args) == 1 and au.src(o.args[0]) in (H, f"{H}.data")
+    return is_size
 
 
 def prune_compares(p, e):
@@ -702,7 +714,7 @@ def seq_form(ex, e, depth=0):
     return None
 
 
-def knn_result(V, ex, paths, H, k, cur, cname):
+def knn_result(V, ex, paths, H, k, cur, cname, size_atom=None):
     from ..core import AnalysisError
     try:
         item = ex.repo.cls(PQM, "PriorityItem")
@@ -725,11 +737,22 @@ def knn_result(V, ex, paths, H, k, cur, cname):
         f = seq_form(ex, ret)
         if f is not None:
             count, elt, rev = f
+            base_tok = ret
+            while isinstance(base_tok, ast.Subscript):
+                base_tok = base_tok.value
+            if S.tok_name(base_tok):
+                # in-place reversals of the list that is returned
+                n_inplace = len(S.calls(p.st, tail="reverse", recv=base_tok.id))
+                other_mut = [ev for ev in S.calls(p.st, recv=base_tok.id) if ev.tail in S.MUTATING and ev.tail != "reverse"]
+                if other_mut:
+                    V.und("result", "C11-H1", "the list read out of the candidate heap is modified before it is returned")
+                    continue
+                rev = rev != (n_inplace % 2 == 1)
             pops = [c for c in ast.walk(elt) if isinstance(c, ast.Call) and isinstance(c.func, ast.Attribute) and au.src(c.func.value) == H
                     and c.func.attr in HEAP_POP]
             elt_ok = len(pops) == 1 and isinstance(elt, ast.Attribute) and elt.value is pops[0] and elt.attr in payload
             cv = cur(p)
-            cnt_ok = cv is not None and ex.text(count) == ex.text(cv)
+            cnt_ok = (cv is not None and ex.text(count) == ex.text(cv)) or (size_atom is not None and size_atom(count))
             if elt_ok and cnt_ok and rev:
                 V.ok("result", "C11-H1", "heap popped `held` times, payload read, reversed")
             elif elt_ok and cnt_ok and not rev:
@@ -776,7 +799,9 @@ def knn_result(V, ex, paths, H, k, cur, cname):
                        and isinstance(ex.origin(ev.args[0].value), ast.Call) and au.src(ex.origin(ev.args[0].value).func.value) == H
                        and au.call_tail(ex.origin(ev.args[0].value)) in HEAP_POP and ev.loops for ev in apps)
             n_rev = len(revs) + (1 if rev else 0)
-            if others or not good or not drained:
+            stores = [ev for ev in p.st.events if ev.kind in ("store", "aug", "del") and isinstance(ev.target, ast.Subscript) and au.src(ev.target.value) == t]
+            if others or not good or not drained or stores or not apps and ex.origin(base) is not None and not (
+                    isinstance(ex.origin(base), ast.List) and not ex.origin(base).elts):
                 V.und("result", "C11-H1", "read-out of the candidate heap not recognised")
             elif n_rev % 2 == 1 and all(num(r.tok) > max([num(a.tok) for a in apps] or [0]) for r in revs):
                 V.ok("result", "C11-H1", "heap drained, payload read, reversed")
